@@ -137,7 +137,7 @@ def run_history(cfg, ops, workdir):
     return {"cfg": cfg, "ops": [list(o) for o in ops], "ev": ev, "skipped": skipped}
 
 
-ALPHABET = [("call", NONE), ("call", 1), ("call", 3), ("adv", 1), ("adv", 2), ("cancel",), ("oacq",), ("orel",), ("unlock",)]
+ALPHABET = [("call", NONE), ("call", 0), ("call", 1), ("adv", 1), ("adv", 2), ("cancel",), ("oacq",), ("orel",), ("unlock",)]
 # start prefixes for the exhaustive part: fresh object; waiting behind the other holder; just timed out (iv = 1)
 PREFIXES = [[], [("oacq",), ("call", 2)], [("oacq",), ("call", 2), ("adv", 2)]]
 
